@@ -7,6 +7,7 @@ package main
 import (
 	"bytes"
 	"fmt"
+	"io"
 
 	astisub "github.com/asticode/go-astisub"
 )
@@ -90,9 +91,26 @@ func suiteStlIO(R *runner, r *rng) {
 			for _, c := range counts {
 				in.n(c)
 			}
-			rd := &schedReader{data: data, counts: counts, failAt: k, failWithData: r.chance(1, 2)}
-			o := &obs{Suite: "stlreadfail", Group: "stl.read_fault", Input: in.String(), NT: k < len(data),
-				Human: map[string]interface{}{"file_hex": hexShort(data), "len": len(data), "fault_after": k, "schedule": describeSchedule(counts, false)}}
+			sr := &schedReader{data: data, counts: counts, failAt: k, failWithData: r.chance(1, 2)}
+			// what the stream does after its failing Read: repeats the error (sticky), reports end-of-file, or goes on
+			// delivering the rest (an io.Reader need not repeat an error; the reader must stop at the first one)
+			then := r.intn(3)
+			var rd io.Reader = sr
+			if then > 0 {
+				rd = &onceFaultReader{s: sr, then: then}
+			}
+			after := []string{"sticky", "eof", "resumes"}[then]
+			R.count("stl.read_fault.after." + after)
+			if sr.failWithData && k >= 1024 && (k-1024)%128 == 0 {
+				R.count("stl.read_fault.with_last_bytes_of_block." + after)
+			}
+			suite := "stlreadfail"
+			if sr.failWithData && k > 0 {
+				suite = "stlreadfailwd" // read_stl_fail_at_wd: the error comes with the last bytes
+			}
+			o := &obs{Suite: suite, Group: "stl.read_fault", Input: in.String(), NT: k < len(data),
+				Human: map[string]interface{}{"file_hex": hexShort(data), "len": len(data), "fault_after": k, "schedule": describeSchedule(counts, false),
+					"error_with_data": sr.failWithData, "after_the_fault": after}}
 			var err error
 			p := safely(func() { _, err = astisub.ReadFromSTL(rd, astisub.STLOptions{IgnoreTimecodeStartOfProgramme: ign}) })
 			switch {
@@ -149,4 +167,24 @@ func suiteStlIO(R *runner, r *rng) {
 			R.add(o)
 		}
 	}
+}
+
+// onceFaultReader reports the scheduled reader's fault once; afterwards it reports end-of-file (then = 1) or goes on
+// delivering the rest of the data (then = 2)
+type onceFaultReader struct {
+	s       *schedReader
+	then    int
+	faulted bool
+}
+
+func (o *onceFaultReader) Read(p []byte) (int, error) {
+	if o.faulted && o.then == 1 {
+		return 0, io.EOF
+	}
+	n, err := o.s.Read(p)
+	if err == errFault {
+		o.faulted = true
+		o.s.failAt = -1
+	}
+	return n, err
 }
